@@ -288,6 +288,23 @@ isite('g_ms_gc_round', '(round gc_depth : N) : N', msync_src, 'mempool/synchroni
 isite('g_ms_gc_keep', '(r gc_round : N) : bool', msync_src, 'mempool/synchronizer.rs', 'Synchronizer', 'run', r'self\.pending\.retain\(\s*\|[^|]*\|\s*([^)]*?)\s*\)', {'r': 'r', 'gc_round': 'gc_round'}, '(gc_round <? r)', pre=lambda t: t.replace('&mut ', ''))
 isite('g_ms_retry_due', '(timestamp delay now : N) : bool', msync_src, 'mempool/synchronizer.rs', 'Synchronizer', 'run', r'if\s+(timestamp[^{}]*?)\s*\{', {'timestamp': 'timestamp', 'DELAY': 'delay', 'now': 'now'}, '((timestamp + delay) <? now)', pre=lambda t: t.replace('(self.sync_retry_delay as u128)', 'DELAY').replace('self.sync_retry_delay as u128', 'DELAY'))
 
+
+# ---- the genesis exemption of the embedded-certificate checks: must be the comparison with QC::genesis() (hash AND round) ----
+for nm, ty, field in (('g_block_exempt_is_genesis', 'Block', 'qc'), ('g_timeout_exempt_is_genesis', 'Timeout', 'high_qc')):
+    ib, il = impl_body(msgs, ty)
+    body, line = fn_body(ib, 'verify') if ib else (None, 0)
+    m = re.search(r'if\s+([^{}]*?)\s*\{\s*self\.%s\.verify\(' % field, body or '', re.S)
+    if m:
+        cond = re.sub(r'\s+', '', m.group(1))
+        v = 'true' if cond in ('self.%s!=QC::genesis()' % field, '!(self.%s==QC::genesis())' % field, 'QC::genesis()!=self.%s' % field) else None
+        if v:
+            defs.append("(* messages.rs: impl %s, fn verify (line %d): the embedded certificate is verified unless `%s` *)\nDefinition %s : bool := true." % (ty, il + line - 1, m.group(1).strip(), nm))
+            sites.append({'name': nm, 'file': 'messages.rs', 'fn': '%s::verify' % ty, 'line': il + line - 1, 'rust': m.group(1).strip(), 'coq': 'true', 'changed': False})
+            continue
+    untied.append((nm, 'the exemption test is not the comparison with QC::genesis(): `%s`' % (m.group(1).strip() if m else 'not found')))
+    defs.append("(* UNTIED %s *)\nDefinition %s : bool := true." % (nm, nm))
+    sites.append({'name': nm, 'file': 'messages.rs', 'fn': '%s::verify' % ty, 'line': il + line - 1, 'rust': m.group(1).strip() if m else None, 'coq': 'true', 'untied': 'exemption test changed'})
+
 # ---- commit(): the deque discipline, read off the source (which end each push/pop uses, whether the head is
 # pushed before or after the walk, and the optional stop test inside the walk) ----
 def flag(name, fn, pattern, mapping, default, what):
